@@ -364,6 +364,79 @@ def bspline_states(cx, tier):
                     rep.violation('C10_IntegralAgrees', sig, dict(info, got=integ, exact=exact_int), what='BSpline p=%d knots %s: get_integral %r differs from the exact integral %r of its values' % (P, knots.tolist(), integ, exact_int))
 
 
+def random_tree_levels(rng, n):
+    """levels of a random binary refinement tree over n sorted points (end points level 0): the root of every interval is any inner point"""
+    lv = [0] * n
+
+    def rec(lo, hi, L):
+        if hi - lo < 2:
+            return
+        m = rng.randint(lo + 1, hi - 1)
+        lv[m] = L
+        rec(lo, m, L + 1)
+        rec(m, hi, L + 1)
+    rec(0, n - 1, 1)
+    return lv
+
+
+def reused_grid_sequences(cx, rng, trees, M, boxes, nseq):
+    """ONE grid object per configuration is taken through a sequence of refinement trees: different point sets, the same point set with
+    another (rebalanced) level assignment, the same tree on another box, tensor grids.  After every set_grid the round trip (hierarchise,
+    interpolate back at the grid points, through interpolate and interpolate_grid) must hold - whatever the object was used for before."""
+    import sparseSpACE.Grid as G
+    from sparseSpACE.ComponentGridInfo import ComponentGridInfo
+    rep = cx.rep
+    N = 2 ** M
+    confs = [('lagrange', 1, True, False), ('lagrange', 3, True, False), ('lagrange', 2, False, False), ('bspline', 1, True, False), ('bspline', 3, True, False),
+             ('bspline', 3, False, False), ('bspline', 1, False, True)]
+    for kind, p, bnd, mod in confs:
+        for D in (1, 2):
+            for q in range(nseq):
+                cls = G.GlobalLagrangeGrid if kind == 'lagrange' else G.GlobalBSplineGrid
+                box0 = boxes[q % len(boxes)]
+                a = np.array([box0[0] + 0.25 * d for d in range(D)], dtype=float)
+                b = np.array([box0[1] + 0.5 * d for d in range(D)], dtype=float)
+                hist = []
+                try:
+                    with impl.quiet():
+                        g = cls(a=a, b=b, boundary=bnd, modified_basis=mod, p=p)
+                    cur = [list(rng.choice([t for t in trees if len(t) >= 2])) for _ in range(D)]
+                    for step in range(5):
+                        mode = rng.choice(['new', 'relevel', 'relevel', 'same', 'one-dim'])
+                        if mode == 'new' or step == 0:
+                            cur = [list(rng.choice([t for t in trees if len(t) >= 2])) for _ in range(D)]
+                        elif mode == 'one-dim':
+                            cur[rng.randrange(D)] = list(rng.choice([t for t in trees if len(t) >= 2]))
+                        lat = [[0] + sorted(t) + [N] for t in cur]
+                        xs = [[float(a[d] + (b[d] - a[d]) * v / N) for v in lat[d]] for d in range(D)]
+                        ls = [[lev(v, M) for v in lat[d]] for d in range(D)]
+                        if mode == 'relevel':
+                            ls = [random_tree_levels(rng, len(lat[d])) for d in range(D)]
+                        hist.append({'mode': mode, 'points': [sorted(t) for t in cur], 'levels': ls})
+                        with impl.quiet(), impl.watchdog(120):
+                            g.set_grid([list(x) for x in xs], [list(l) for l in ls])
+                            f = make_function(a, b, N, 0)
+                            g.integrate(f, [1] * D, a, b)
+                            cg = ComponentGridInfo([1] * D, 1)
+                            pts = [tuple(float(v) for v in qq) for qq in g.getPoints()]
+                            vin = np.array([f.eval(qq) for qq in pts])
+                            back = np.asarray(g.interpolate(pts, cg), dtype=float)
+                            nodes = [l if bnd else l[1:-1] for l in lat]
+                            back_grid = np.asarray(g.interpolate_grid([[float(a[d] + (b[d] - a[d]) * v / N) for v in nodes[d]] for d in range(D)], cg), dtype=float)
+                        rep.count(1, key=json.dumps(['reused', kind, p, bnd, mod, D, q, step]))
+                        sig = {'kind': kind, 'api': 'Global%sGrid' % ('Lagrange' if kind == 'lagrange' else 'BSpline'), 'boundary': bnd, 'modified': mod, 'dim': D, 'reused_object': True}
+                        for nm, bk in (('interpolate', back), ('interpolate_grid', back_grid)):
+                            if bk.shape != vin.shape or np.abs(bk - vin).max() > 1e-7 * max(1.0, np.abs(vin).max()):
+                                err = float(np.abs(bk - vin).max()) if bk.shape == vin.shape else None
+                                rep.violation('C10_RoundTrip', dict(sig, call=nm), {'kind': kind, 'p': p, 'boundary': bnd, 'modified': mod, 'box': [a.tolist(), b.tolist()], 'history': hist, 'max_error': err},
+                                              what='grid object re-used along %d trees (last step: %s): %s at the grid points differs from the nodal values by %s (%s p=%d boundary=%s)' % (len(hist), mode, nm, err, kind, p, bnd))
+                except impl.Timeout:
+                    rep.exclude('timeout: reused %s p=%d' % (kind, p))
+                except Exception as ex:
+                    rep.violation('C10_NoException', {'kind': kind, 'boundary': bnd, 'modified': mod, 'reused_object': True, 'exception': type(ex).__name__},
+                                  {'kind': kind, 'p': p, 'history': hist, 'exception': repr(ex)}, what='re-used %s grid p=%d boundary=%s raised %r after %s' % (kind, p, bnd, ex, hist[-1:] ))
+
+
 def run(tier, seed):
     rep = Report(PROP, tier, seed, 'exploration')
     rng = random.Random(seed)
@@ -419,6 +492,7 @@ def run(tier, seed):
             for p in ps:
                 for bnd, mod in ((True, False), (False, False), (False, True)):
                     local_grid_case(cx, kind, p, bnd, mod, lv, boxes[0])
+    reused_grid_sequences(cx, rng, trees, M, boxes, 3 if tier == 'quick' else 12)
     standalone_bases(cx, rng, 40 if tier == 'quick' else 400)
     bspline_states(cx, tier)
     # ---- TLC judges the recorded (snapped) outputs
